@@ -192,7 +192,8 @@ type Cluster struct {
 
 	stepNo    int
 	refQueued map[int]bool
-	nesting   int // > 0 while a composite step executes its sub-steps
+	keySeed   uint64 // identities derive their keys from this instead of the run seed (fixed histories)
+	nesting   int    // > 0 while a composite step executes its sub-steps
 	steps     []*Step
 	start     time.Time
 	wakeups   []func()
@@ -418,7 +419,11 @@ func (n *SimNode) clockNow(now int64) int64 {
 // addIdentity creates a participant identity (no node yet).
 func (c *Cluster) addIdentity() *SimNode {
 	i := len(c.nodes)
-	k := deriveKey(c.seed, i)
+	ks := c.seed
+	if c.keySeed != 0 {
+		ks = c.keySeed
+	}
+	k := deriveKey(ks, i)
 	n := &SimNode{
 		idx:             i,
 		key:             k,
